@@ -44,7 +44,7 @@ ZeroWire(id) ==
   LET kd == PropKind(id) IN
   IF kd \in {"bool", "u8", "u16", "vbi"} THEN 0 ELSE IF kd = "u32" THEN <<0, 0>> ELSE <<>>
 
-PV(id, val) == [id |-> id, val |-> val]
+PV(id, val) == <<id, val>>       \* a tuple, so that comparing two properties looks at the identifier first
 Asc(S) == LET s == SetToSortSeq(S, LAMBDA a, b : a < b) IN [i \in 1..Len(s) |-> PV(s[i], SampleVal(s[i]))]
 Perms(S) == LET n == Cardinality(S) IN
             {f \in [1..n -> S] : \A i, j \in 1..n : i # j => f[i] # f[j]}
@@ -222,7 +222,7 @@ BaseForMutants(t) ==
   LET small == {p \in WirePkts(t) : NProps(p) <= 1 /\ WillNProps(p) <= 1}
       full == {p \in WirePkts(t) : NProps(p) >= Cardinality(Allowed(t)) - 1 /\ NProps(p) > 1}
       \* packets with a multi-byte variable byte integer: subscription identifier, long property section
-      vbis == {p \in small : NProps(p) = 1 /\ (p.v["Props"][1].id = 11 \/ Len(EncPropBody(p.v["Props"])) > 127)}
+      vbis == {p \in small : NProps(p) = 1 /\ (p.v["Props"][1][1] = 11 \/ Len(EncPropBody(p.v["Props"])) > 127)}
   IN Sample(small, IF Thorough THEN 400 ELSE 40) \cup Sample(full, IF Thorough THEN 10 ELSE 2)
      \cup Sample(vbis, IF Thorough THEN 20 ELSE 3)
 SweepBase(t) ==
@@ -282,7 +282,7 @@ CallOp(h, m, args) == [op |-> "Call", h |-> h, m |-> m, args |-> args]
 
 PropCalls(h, ctx, props) ==
   [i \in 1..Len(props) |->
-     LET id == props[i].id  val == props[i].val  kd == PropKind(id) IN
+     LET id == props[i][1]  val == props[i][2]  kd == PropKind(id) IN
      IF id = 38 THEN CallOp(h, "AddUserProp", <<val[1], val[2]>>)
      ELSE IF id = 11 /\ ctx = 3 THEN CallOp(h, "AddSubscriptionID", <<Pair32(val)>>)
      ELSE CallOp(h, "Set" \o AccName(id), <<IF kd = "bool" THEN val = 1 ELSE val>>)]
@@ -290,7 +290,7 @@ PropCalls(h, ctx, props) ==
 (* will properties: 24 lives on the CONNECT, the rest on the will PUBLISH *)
 WillPropCalls(hc, hw, props) ==
   [i \in 1..Len(props) |->
-     LET id == props[i].id  val == props[i].val  kd == PropKind(id) IN
+     LET id == props[i][1]  val == props[i][2]  kd == PropKind(id) IN
      IF id = 38 THEN CallOp(hw, "AddUserProp", <<val[1], val[2]>>)
      ELSE IF id = 24 THEN CallOp(hc, "SetWillDelayInterval", <<val>>)
      ELSE CallOp(hw, "Set" \o AccName(id), <<IF kd = "bool" THEN val = 1 ELSE val>>)]
